@@ -239,3 +239,39 @@ Proof. exact outer_viol_nil. Qed.
 Theorem C03_nonvacuous_cluster :
   valid4 ex_Xc ex_XSc ex_Pc ex_Sc = [] /\ replay4 ex_Xc ex_XSc_bad ex_Pc ex_Sc = [RCommute 0 2].
 Proof. exact (conj (proj1 ex_cluster) (proj1 (proj2 (proj2 ex_cluster)))). Qed.
+
+(* ---------------------------------------------------------------------------------------------------------------------------
+   ROUND FIVE (Spec/ValidY.v): RECHARGE STATIONS.  A recharge stop is replayed like a job activity - travel to the station, start =
+   max(arrival, start of a time window of the station), + the station's duration, load unchanged, cumulative distance, tag of the
+   station used - by the very functions above: the replay that runs (`replay5`) is `replay_viol_x ++ xreplay_viols` on the
+   document in which every recharge activity is the demand-free service activity of a pseudo job that offers the stations of
+   the tour's shift; the station's duration is reported as SERVING time. *)
+From VRP Require Import Spec.ValidY Proofs.ValidYP.
+
+(* conservativity: for a problem without recharges it IS the replay of the earlier rounds (R = None: Valid.replay_viol) *)
+Theorem C03_no_recharges_is_replay_viol : forall R P S, replay5 Y0 R P S = replay_viol_x R P S ++ xreplay_viols P S.
+Proof. exact replay5_Y0. Qed.
+
+(* non-vacuity / witness: the example document (a recharge of 5 s: serving 5 + 5, duration 50, cost 7 + 40 + 100) is replayed
+   exactly; the same document with the recharge's 5 s missing from the serving time is exactly [RStatServing 0] *)
+Theorem C03_nonvacuous_recharge :
+  all5 (ex_Yrc 30) ex_Prc ex_Src = [] /\ st_serve (sl_stat ex_Src) = 10
+  /\ replay5 (ex_Yrc 30) None ex_Prc ex_Src_bad = [RStatServing 0].
+Proof. split; [exact (proj1 ex_recharge)|]. split; [reflexivity|exact ex_recharge_serving]. Qed.
+
+(* REQUIRED BREAKS, one more rule (round five): a break the tour REPORTS is taken DURING the tour.  The tour begins when the vehicle
+   departs (duration and cost are counted from there), so every reported break begins at or after the departure - or, two moments
+   with nothing but reported break time between them being the same moment as everywhere in ValidX, the whole time from its
+   beginning to the reported departure is break time.  (An exact-time break between the shift's earliest start and a departure the
+   solver moved later is no part of the tour: seeded change C03-6 wrote it into the departure stop and counted it in times.break.)
+   The checker lists exactly the (tour, break start) pairs that violate it *)
+Theorem C03_reported_breaks_inside_tour_sound_complete : forall X S,
+  break_span_viols X S = [] <-> forall t, In t (sl_tours S) -> BreaksInsideTour X t.
+Proof. exact break_span_viols_nil. Qed.
+
+(* non-vacuity / witness: the required-break example lies inside its tour; the same break reported -5 .. -1, over before the
+   departure at 0, is exactly [(tour 0, -5)]; reported -2 .. 2 it is the same moment as the departure *)
+Theorem C03_nonvacuous_reported_breaks_inside_tour :
+  break_span_viols ex_Xq ex_Sq = [] /\ break_span_viols ex_Xq ex_Sq_early = [(0, -5)]
+  /\ span_ok [(-2, 2)] 0 (-2) = true /\ span_ok [(-5, -1)] 0 (-5) = false.
+Proof. exact ex_break_span. Qed.
